@@ -21,7 +21,7 @@ BOUNDS = {
     "quick": {"columns": "1 column: every (field of 3, width spec from {default, fixed w, ranged a-b} with 0<=a<=b<=7, modifier of the enum field from {none,full,val,name}, break-by); "
                          "2-3 columns: each from 7 representative descriptors (incl. repeated field, hidden ':-1' field, zero width, ranged)",
               "limits": "none, '*', (a,b) with 0<=a,b<=2 (combined with width bounds <= 2 in the 1-column space)", "records": "0, 1, 3 and 5 rows (cells of different lengths, repeated values for break-by); 60 rows for the limit-related part",
-              "life": "fresh, printed, printed + re-formatted with '' / ';' / ';;', format fed back twice"},
+              "life": "fresh, printed, printed + re-formatted with '' / ';' / ';;', printed + limits changed through the setter and read back before the next printing, format fed back twice"},
 }
 BOUNDS["thorough"] = dict(BOUNDS["quick"], columns=BOUNDS["quick"]["columns"].replace("<=7", "<=12").replace("7 representative", "10 representative"))
 OUTSIDE = ["value-path ('<-') columns of the enhanced format", "custom FieldType classes", "multi-line titles", "more than 3 columns"]
@@ -96,6 +96,10 @@ def _check_roundtrip(records, fmt0: str, stage: int, descr: str) -> None:
                 raise Violation(f"empty-fmt-changes :: {descr}: setting fmt={empty!r} changed the rendering")
             if str(t.fmt) != fs:
                 raise Violation(f"empty-fmt-changes :: {descr}: setting fmt={empty!r} changed str(fmt) from {fs!r} to {str(t.fmt)!r}")
+    if stage >= 3:
+        # printed, then re-formatted with different record limits, and NOT printed again before the format is read back
+        _render(t)
+        t.fmt = ";2:1" if len(records) > 3 else ";1:0"
     s = str(t.fmt)          # reported before this stage's own rendering (stage 0: a table that was never printed)
     want = _render(t)
     # (a) accepted by the constructor, same rendering
@@ -217,9 +221,11 @@ def jobs(tier: str) -> List[Job]:
     t = tier == "thorough"
     js: List[Job] = []
     W = 12 if t else 7
-    for stage in (0, 1, 2):
+    for stage in (0, 1, 2, 3):
         for nrec in ((0, 1, 3, 5) if t else (0, 3, 5)):
-            if not t and stage == 2 and nrec == 0:
+            if not t and stage in (2, 3) and nrec == 0:
+                continue
+            if not t and stage == 3 and nrec != 5:
                 continue
             for lk in (0, 1, 2):
                 if not t and lk == 1 and nrec != 5:
